@@ -533,7 +533,12 @@ def concat(objs, dim=None, **kw):
     # dim given as an index-like object (pd.Index) with a name
     name = getattr(dim, 'name', None) or 'concat_dim'
     labels = list(dim)
-    data = symnp.stack([o.values for o in objs], axis=0)
+    if any(_is_dask(o.data) for o in objs):
+        from . import symda
+        data = symda.stack([o.data for o in objs], axis=0)     # xarray keeps dask-backed pieces lazy
+        data._shape = (len(objs),) + tuple(first.shape)
+    else:
+        data = symnp.stack([o.values for o in objs], axis=0)
     out = DataArray(data, dims=(name,) + first.dims, attrs=first.attrs, name=first.name)
     for k, c in first.coords.items():
         out.coords[k] = c
